@@ -143,7 +143,7 @@ def make_backend(kind, sim, n_workers):
                         callback(out)
                     else:
                         callback()
-            sim.submit(runner)
+            sim.submit(runner, tag=func)
             return job
 
         def retrieve_result_callback(self, out):
@@ -189,6 +189,15 @@ def run(cfg, sched):
     out.leftovers = []
     out.hooks = cfg.get("hooks", {})
     sim.meta_fn = lambda: len(out.calls)          # how many calls had finished when a batch was submitted
+
+    def tag_fn(func):
+        f = getattr(func, "func", func)           # _TracebackCapturingWrapper
+        items = getattr(f, "items", None)
+        if items:
+            return tuple(items[0][1][:2])         # (call_no, index of the batch's first task)
+        return None
+    sim.tag_fn = tag_fn
+    sim.stuck_tags = set(tuple(t) for t in cfg.get("stuck_tasks", ()))
 
     def task(call_no, i):
         out.exec_log.append((call_no, i))
@@ -257,7 +266,14 @@ def consume(sim, p, holder, c, rec, out):
     rec["overlap"] = None
     n = 0
     it = iter(gen)
-    while pulls is None or n < pulls:
+    while pulls is None or pulls == "available" or n < pulls:
+        if pulls == "available":
+            # pull exactly while a result is owed: something finished and undelivered, or still able to finish
+            owed = len([x for x in out.exec_log if x[0] == rec["call"]]) - len(got)
+            more = any(not sim._is_stuck(q, r) for q, r in sim.pending) or \
+                getattr(sim, "n_started", 0) > sim.n_tasks_finished
+            if owed <= 0 and not more:
+                break
         try:
             sim.sp("pull")
             got.append(next(it))
